@@ -53,8 +53,20 @@ def check(ctx):
             src_box = None
             if c.dot is not None and c.dot[1] is not None:
                 src_box = c.dot[1].box
-            if src_box is not None and not (src_box == box):
+            def box_identity(b):
+                lat = b.boxof if b is not None else None
+                if lat is None:
+                    return None
+                fm = lat.from_matrix
+                return (lat.ty, lat.frame, fm.store if fm is not None else None, lat.sx if lat.sx_fn is None else None)
+            same_box = src_box is None or src_box == box
+            if not same_box:
+                ia, ib = box_identity(src_box), box_identity(box)
+                same_box = None if (ia is None or ib is None) else (ia == ib)
+            if same_box is False:
                 ctx.ob('R1', fcas, e['node'], False, 'the coordinates are expressed with the vectors of a different box than the one given to the tree')
+            elif same_box is None:
+                ctx.ob('R1', fcas, e['node'], None, 'box of the coordinate frame and box of the tree not comparable')
             else:
                 ctx.ob('R1', fcas, e['node'], True, 'Cartesian coordinates in the frame of the tree box')
         elif any(is_cart(x) and x[1] != 'MDA' for x in gs):
@@ -67,8 +79,8 @@ def check(ctx):
             ctx.ob('R1', fcas, e['node'], False if coordlike else None, f'{e["which"]} receives {geo_text(g)}; Cartesian coordinates in the box frame are required')
 
     # ---- R6 exactness domain of the search (API precondition)
-    for e in trees:
-        ctx.ob('R6', fcas, e['node'], False,
+    for e in trees[:1]:
+        ctx.ob('R6', fcas, 'PeriodicKDTree(box=cell parameters)', False,
                'PeriodicKDTree is given the cell parameters of an arbitrary lattice without validation: it misses neighbours '
                'in strongly skewed cells (rhombohedral 60 degree, skewed triclinic) even with coordinates in its own frame')
     if not trees:
